@@ -24,6 +24,10 @@ type Obligation struct {
 }
 
 type Safe struct {
+	tableMemo map[*ssa.Global]bool
+	intTableMemo map[*ssa.Global]*Itv
+	tableInfo   map[*ssa.Global]map[string]Itv
+	tableByPath map[string]*ssa.Global
 	w        *World
 	u        *Universe
 	eff      *Effects // for callee resolution
